@@ -9,7 +9,10 @@
 //! order the parent process happened to see is passed to the model).
 //! Appended case kinds (`idx >= 64` quick / `>= 320` thorough): tool-object SESSIONS (one Minifier / Tokenizer / Renumberer /
 //! Disassembler object used for several inputs; outputs are part of the digest and are compared with fresh objects, oracle
-//! `object-reuse`), and random-access text files with more than 65536 records (`records-large-*`).
+//! `object-reuse`), random-access text files with more than 65536 records (`records-large-*`), and READER cases: images with
+//! stamps at boundary dates are written once by the parent and then only read (`read-*`) -- by the parent under five
+//! clocks in turn (oracle `clock-independence`) and by extra children started under other clocks and time zones
+//! (oracle `environment-independence`), which also evaluate every other case that writes no stamp.
 use crate::util::*;
 use a2kit::fs::{cpm, dos3x, fat, pascal, prodos, DiskFS, FileImage, Records, TextConversion};
 use a2kit::img::{self, names, DiskImage};
@@ -537,11 +540,132 @@ fn big_records_case(rng: &mut Rng, variant: usize, obs: &mut Obs) -> String {
     format!("records-large rec_len={} chunk_len=512 chunks={} bytes={} records-found={} (all bytes are letters: every record is non-empty)", rec_len, chunks, data.len(), count)
 }
 
+// ------------------------------------------------------------------------------------------------ the clock must not matter
+//
+// Reading an EXISTING image (catalog, tree with metadata, stat, glob, get -> JSON / raw, geometry, metadata) has to give
+// the same bytes whatever the wall clock and time zone of the reading machine are; only operations that by design stamp
+// the current time (put / create / format / save of a modified image) may depend on them.  The parent builds a few
+// images whose entries carry stamps at boundary dates (the clock shim re-reads A2KIT_VERIF_TIME on every call, so the
+// parent steps the clock while it writes the files), saves them to a scratch directory, and every process -- the parent
+// under five different clocks in turn, the ordinary children, and children started with other clocks and time zones --
+// re-opens the saved files and runs the read-only operations (`read-*`).
+
+const IMGDIR_ENV: &str = "A2V_C20_IMGDIR";
+const READER_IMAGES: usize = 4;
+
+fn unix_of(y: i32, m: u32, d: u32, hh: u32, mm: u32) -> i64 {
+    chrono::NaiveDate::from_ymd_opt(y, m, d).and_then(|x| x.and_hms_opt(hh, mm, 0)).map(|x| x.and_utc().timestamp()).unwrap_or(946684800)
+}
+fn set_clock(secs: i64) { std::env::set_var("A2KIT_VERIF_TIME", secs.to_string()); }
+
+/// dates the stamps of the reader images are taken from: both sides of every pivot a decoder could use (1978/79 SOS,
+/// 1980 FAT epoch, 99/00), the years around the time this was written, and years up to 2078 that a sliding window
+/// ("not after today") would treat differently on different days
+fn stamp_dates() -> Vec<i64> {
+    vec![unix_of(1979, 1, 1, 0, 5), unix_of(1980, 1, 1, 12, 30), unix_of(1985, 7, 4, 9, 0), unix_of(1999, 12, 31, 23, 59), unix_of(2000, 1, 1, 0, 0),
+         unix_of(2025, 9, 30, 12, 30), unix_of(2026, 9, 30, 12, 30), unix_of(2026, 10, 1, 0, 10), unix_of(2027, 6, 15, 12, 30), unix_of(2030, 2, 28, 8, 15),
+         unix_of(2040, 12, 31, 12, 30), unix_of(2050, 6, 15, 12, 30), unix_of(2065, 3, 9, 18, 45), unix_of(2078, 12, 31, 23, 58), unix_of(2079, 1, 1, 0, 1), unix_of(2099, 12, 31, 12, 0)]
+}
+
+/// clocks under which the existing images are READ (parent, in turn; children get one each)
+fn reading_clocks() -> Vec<i64> {
+    vec![unix_of(1980, 1, 1, 0, 0), unix_of(2000, 1, 1, 0, 0), unix_of(2026, 9, 30, 12, 0), unix_of(2079, 12, 31, 23, 0), unix_of(2100, 1, 1, 0, 0)]
+}
+
+/// parent only: build the reader images (stepping the pinned clock) and save them; returns a description per image
+fn build_reader_images(seed: u64, dir: &std::path::Path) -> Vec<String> {
+    let keep = std::env::var("A2KIT_VERIF_TIME").ok();
+    let mut rng = Rng::new(seed).fork(0xC10C);
+    let dates = stamp_dates();
+    let mut descs = Vec::new();
+    for j in 0..READER_IMAGES {
+        set_clock(unix_of(1984, 1, 24, 10, 0));
+        let (fs, ext) = match j { 0 => (Fs::Prodos, "po"), 1 => (Fs::Pascal, "po"), 2 => (Fs::Fat, "img"), _ => (Fs::Cpm, "imd") };
+        let made = match fs {
+            Fs::Prodos => mk_disk(Fs::Prodos, 0), Fs::Pascal => mk_disk(Fs::Pascal, 1), Fs::Fat => mk_disk(Fs::Fat, 2), _ => mk_disk(Fs::Cpm, 3) };
+        let (mut disk, label) = match made { Ok(x) => x, Err(e) => { descs.push(format!("reader-image {} mk-failed {}", j, e)); continue; } };
+        let hier = fs == Fs::Prodos || fs == Fs::Fat;
+        if hier { set_clock(dates[rng.below(dates.len())]); let _ = disk.create("SUB1"); }
+        let mut d = format!("reader-image {} stamps:", label);
+        let mut order: Vec<usize> = (0..dates.len()).collect();
+        for k in (1..order.len()).rev() { let i = rng.below(k + 1); order.swap(k, i); }
+        for (i, di) in order.iter().enumerate() {
+            set_clock(dates[*di]);
+            let path = fname(fs, i, if hier && i % 4 == 3 { "SUB1" } else { "" });
+            let ok = match i % 3 {
+                0 if fs != Fs::Pascal => disk.bsave(&path, &rng.bytes(40 + i), if fs == Fs::Fat || fs == Fs::Cpm { None } else { Some(0x2000) }, None).is_ok(),
+                _ => disk.write_text(&path, "STAMPED\nFILE\n").is_ok(),
+            };
+            let when = chrono::DateTime::from_timestamp(dates[*di], 0).map(|t| t.format("%Y-%m-%dT%H:%M").to_string()).unwrap_or_default();
+            d += &format!(" {}@{}:{}", path, when, ok as u8);
+        }
+        let bytes = disk.get_img().to_bytes();
+        let _ = std::fs::write(dir.join(format!("img{}.{}", j, ext)), bytes);
+        descs.push(d);
+    }
+    match keep { Some(v) => std::env::set_var("A2KIT_VERIF_TIME", v), None => std::env::remove_var("A2KIT_VERIF_TIME") }
+    descs
+}
+
+/// every process: open saved image `j` and run the read-only operations
+fn reader_case(j: usize, obs: &mut Obs) -> String {
+    let dir = match std::env::var(IMGDIR_ENV) { Ok(d) => d, Err(_) => { ob(obs, "read-open", b"<no-image-dir>".to_vec()); return "reader no-image-dir".to_string(); } };
+    let prefix = format!("img{}.", j);
+    let path = std::fs::read_dir(&dir).ok().and_then(|rd| rd.filter_map(|e| e.ok()).map(|e| e.path()).find(|p| p.file_name().and_then(|n| n.to_str()).map_or(false, |n| n.starts_with(&prefix))));
+    let path = match path { Some(p) => p, None => { ob(obs, "read-open", b"<no-image>".to_vec()); return format!("reader {} no-image", j); } };
+    let mut disk = match a2kit::create_fs_from_file(&path.to_string_lossy()) { Ok(d) => d, Err(e) => { ob(obs, "read-open", format!("<err {}>", e).into_bytes()); return format!("reader {} open-failed", j); } };
+    ob(obs, "read-open", b"ok".to_vec());
+    let fs_name = disk.stat().map(|s| s.fs_name.clone()).unwrap_or_default();
+    let hier = fs_name.contains("prodos") || fs_name.contains("fat");
+    ob_res(obs, "read-catalog", disk.catalog_to_vec(if hier { "/" } else { "" }), |v| v.join("\n").into_bytes());
+    if hier { ob_res(obs, "read-catalog", disk.catalog_to_vec("SUB1"), |v| v.join("\n").into_bytes()); }
+    ob_res(obs, "read-tree-meta", disk.tree(true, None), |s| s.into_bytes());
+    ob_res(obs, "read-tree-meta", disk.tree(true, Some(2)), |s| s.into_bytes());
+    ob_res(obs, "read-tree", disk.tree(false, None), |s| s.into_bytes());
+    ob_res(obs, "read-stat", disk.stat(), |s| s.to_json(None).into_bytes());
+    let names = disk.glob("**/*", false).or_else(|_| disk.glob("*", false)).unwrap_or_default();
+    ob(obs, "read-glob", names.join("\n").into_bytes());
+    let mut files = 0;
+    for p in names.iter() {
+        if let Ok(f) = disk.get(p) {
+            files += 1;
+            ob(obs, "read-get-fimg-json", f.to_json(None).into_bytes());
+            ob_res(obs, "read-get-raw", f.unpack_raw(true), |v| v);
+        }
+    }
+    ob_res(obs, "read-geometry", disk.get_img().export_geometry(None), |s| s.into_bytes());
+    ob(obs, "read-metadata", disk.get_img().get_metadata(None).into_bytes());
+    format!("reader image={} fs={} files-read={}", path.file_name().and_then(|n| n.to_str()).unwrap_or("?"), fs_name, files)
+}
+
+/// operations whose result may not depend on clock or time zone (everything that does not write a stamp)
+fn clock_free_op(op: &str) -> bool {
+    op.starts_with("read-") || op.ends_with("-session") || op.starts_with("records-large") || op.starts_with("disassemble")
+        || op.ends_with("-tokenize") || op.ends_with("-detokenize")
+        || ["records-to-json", "records-display", "records-update-fimg", "records-from-json"].contains(&op)
+}
+
+/// case layout: regular kinds, then (appended) tool sessions, large record sets, reader images
+#[derive(Clone, Copy)]
+struct Plan { n: usize, ns: usize, nb: usize, nr: usize }
+impl Plan {
+    fn of(ctx: &Ctx) -> Plan { Plan { n: case_count(ctx), ns: session_count(ctx), nb: big_count(ctx), nr: READER_IMAGES } }
+    fn total(&self) -> usize { self.n + self.ns + self.nb + self.nr }
+    fn reader_base(&self) -> usize { self.n + self.ns + self.nb }
+    /// cases a process under a foreign clock / time zone evaluates: those that write no stamp
+    fn clock_free_case(&self, idx: usize) -> bool { idx >= self.n || [0usize, 1, 7, 8, 15].contains(&(idx % KINDS)) }
+}
+
 /// everything one case observes; identical code in parent and children
-fn run_case(seed: u64, idx: usize, n_regular: usize, n_sessions: usize) -> (String, Obs, Option<RecCase>, Reuse) {
+fn run_case(seed: u64, idx: usize, plan: Plan) -> (String, Obs, Option<RecCase>, Reuse) {
+    let (n_regular, n_sessions) = (plan.n, plan.ns);
     let mut rng = Rng::new(seed).fork(idx as u64);
     let mut obs: Obs = Vec::new();
     let mut reuse: Reuse = Vec::new();
+    if idx >= plan.reader_base() {
+        let desc = reader_case(idx - plan.reader_base(), &mut obs);
+        return (desc, obs, None, reuse);
+    }
     if idx >= n_regular {
         // appended kinds (earlier case numbers stay put): tool-object sessions, then the large record sets
         let k = idx - n_regular;
@@ -587,13 +711,15 @@ fn session_count(ctx: &Ctx) -> usize { ctx.n(12, 120) }
 fn big_count(ctx: &Ctx) -> usize { ctx.n(2, 3) }
 
 fn child(ctx: &mut Ctx) {
-    let n = case_count(ctx);
-    let (ns, nb) = (session_count(ctx), big_count(ctx));
+    let plan = Plan::of(ctx);
+    // a child started under a foreign clock / time zone evaluates only the cases that write no stamp
+    let vary = std::env::var(CHILD_ENV).map(|v| v == "vary").unwrap_or(false);
     let mut out = String::new();
-    for idx in 0..n + ns + nb {
+    for idx in 0..plan.total() {
         if !ctx.out.wants(idx) { continue; }
+        if vary && !plan.clock_free_case(idx) { continue; }
         let seed = ctx.seed;
-        match guarded(move || run_case(seed, idx, n, ns)) {
+        match guarded(move || run_case(seed, idx, plan)) {
             Ok((_, obs, _, _)) => for (op, d) in digests(&obs) { out += &format!("X\t{}\t{}\t{:016x}\n", idx, op, d); },
             Err(p) => out += &format!("X\t{}\tpanic\t{:016x}\n", idx, fnv(panic_site(&p).as_bytes())),
         }
@@ -607,17 +733,22 @@ fn sig_for(op: &str) -> String {
 
 pub fn run(ctx: &mut Ctx) {
     if std::env::var(CHILD_ENV).is_ok() { child(ctx); return; }
-    let n = case_count(ctx);
-    let (ns, nb) = (session_count(ctx), big_count(ctx));
+    let plan = Plan::of(ctx);
     let nproc = ctx.n(8, 64);
+    // ---- images with boundary-date stamps, written once (here) and only READ afterwards, by every process
+    let imgdir = std::env::temp_dir().join(format!("a2v-c20-{}", std::process::id()));
+    let _ = std::fs::create_dir_all(&imgdir);
+    let seed0 = ctx.seed;
+    let img_descs = guarded(|| build_reader_images(seed0, &imgdir)).unwrap_or_default();
+    std::env::set_var(IMGDIR_ENV, &imgdir);
     // ---- parent: every case twice in this process
     let mut parent: BTreeMap<(usize, String), u64> = BTreeMap::new();
     let mut descs: BTreeMap<usize, String> = BTreeMap::new();
-    for idx in 0..n + ns + nb {
+    for idx in 0..plan.total() {
         if !ctx.out.wants(idx) { continue; }
         let seed = ctx.seed;
-        let r1 = guarded(move || run_case(seed, idx, n, ns));
-        let r2 = guarded(move || run_case(seed, idx, n, ns));
+        let r1 = guarded(move || run_case(seed, idx, plan));
+        let r2 = guarded(move || run_case(seed, idx, plan));
         match (r1, r2) {
             (Ok((desc, obs1, rc, reuse)), Ok((_, obs2, _, _))) => {
                 for (sig, pass, detail) in &reuse { ctx.out.oracle(*pass, "object-reuse", sig, detail); }
@@ -635,6 +766,7 @@ pub fn run(ctx: &mut Ctx) {
                 ctx.out.case(&canon, obs1.len() >= 3);
                 ctx.out.count(&format!("kind:{}", desc.split(|c| c == ' ').next().unwrap_or("?")));
                 ctx.out.sample(&format!("idx={} {}", idx, desc));
+                let desc = if idx >= plan.reader_base() { format!("{} | {}", desc, img_descs.get(idx - plan.reader_base()).cloned().unwrap_or_default()) } else { desc };
                 descs.insert(idx, desc);
                 if let Some(rc) = rc { tie_records(ctx, idx, &rc); }
             }
@@ -647,19 +779,58 @@ pub fn run(ctx: &mut Ctx) {
         }
     }
     if ctx.out.wants(0) { tie_dasm_map(ctx); tie_chunks_json(ctx); }
-    // ---- children: fresh processes, fresh hash seeds
+    // ---- the same process under other clocks: reading the saved images must give the same bytes
+    {
+        let keep = std::env::var("A2KIT_VERIF_TIME").ok();
+        for j in 0..plan.nr {
+            let idx = plan.reader_base() + j;
+            if !ctx.out.wants(idx) { continue; }
+            for clk in reading_clocks() {
+                set_clock(clk);
+                let r = guarded(move || { let mut o: Obs = Vec::new(); reader_case(j, &mut o); o });
+                if let Ok(o) = r {
+                    for (op, d) in digests(&o) {
+                        let same = parent.get(&(idx, op.clone())) == Some(&d);
+                        ctx.out.oracle(same, "clock-independence", &format!("c20/{}/depends-on-clock", op),
+                            &format!("idx={} op={} reading-clock={} vs the pinned clock; {}", idx, op,
+                                chrono::DateTime::from_timestamp(clk, 0).map(|t| t.format("%Y-%m-%d").to_string()).unwrap_or_default(), descs.get(&idx).cloned().unwrap_or_default()));
+                    }
+                    ctx.out.count("clock-sweep-evaluations");
+                }
+            }
+        }
+        match keep { Some(v) => std::env::set_var("A2KIT_VERIF_TIME", v), None => std::env::remove_var("A2KIT_VERIF_TIME") }
+    }
+    // ---- children: fresh processes, fresh hash seeds; the last ones under OTHER clocks and time zones (they evaluate
+    //      only the cases that write no stamp)
     let exe = match std::env::current_exe() { Ok(e) => e, Err(_) => { ctx.out.oracle(false, "spawn", "c20/harness/no-current-exe", "idx=0"); return; } };
     let args: Vec<String> = std::env::args().collect();
     let mut results: Vec<BTreeMap<(usize, String), u64>> = Vec::new();
     let mut pending: Vec<std::process::Child> = Vec::new();
     let mut launched = 0;
     let batch = 16;
-    while launched < nproc || !pending.is_empty() {
-        while launched < nproc && pending.len() < batch {
+    // (clock, TZ) of the environment-varied children: POSIX TZ strings, `AAA-14` = UTC+14, `AAA12` = UTC-12
+    let clocks = reading_clocks();
+    let zones = ["UTC", "AAA-14", "AAA12"];
+    let mut envs: Vec<(i64, &str)> = Vec::new();
+    if ctx.tier_thorough { for c in &clocks { for z in zones.iter() { envs.push((*c, *z)); } } }
+    else { for (k, c) in clocks.iter().enumerate() { envs.push((*c, zones[k % 3])); } envs.push((clocks[2], "AAA-14")); envs.push((clocks[2], "AAA12")); }
+    let total = nproc + envs.len();
+    let mut child_env: Vec<String> = Vec::new();
+    while launched < total || !pending.is_empty() {
+        while launched < total && pending.len() < batch {
             let mut cmd = std::process::Command::new(&exe);
             cmd.arg("c20").arg(&args[2]).arg(&args[3]).arg("-");
             if let Some(k) = ctx.out.only { cmd.arg("--only").arg(k.to_string()); }
-            cmd.env(CHILD_ENV, "1").stdout(std::process::Stdio::piped()).stderr(std::process::Stdio::null());
+            if launched < nproc {
+                cmd.env(CHILD_ENV, "1");
+                child_env.push(String::new());
+            } else {
+                let (clk, tz) = envs[launched - nproc];
+                cmd.env(CHILD_ENV, "vary").env("A2KIT_VERIF_TIME", clk.to_string()).env("TZ", tz);
+                child_env.push(format!("clock={} TZ={}", chrono::DateTime::from_timestamp(clk, 0).map(|t| t.format("%Y-%m-%d").to_string()).unwrap_or_default(), tz));
+            }
+            cmd.stdout(std::process::Stdio::piped()).stderr(std::process::Stdio::null());
             match cmd.spawn() { Ok(c) => pending.push(c), Err(_) => { ctx.out.oracle(false, "spawn", "c20/harness/spawn-failed", "idx=0"); return; } }
             launched += 1;
         }
@@ -678,19 +849,31 @@ pub fn run(ctx: &mut Ctx) {
         }
     }
     ctx.out.count_n("child-processes", results.len() as u64);
-    // ---- oracle: per (case, operation) all processes agree
+    ctx.out.count_n("child-processes-other-clock-or-tz", results.len().saturating_sub(nproc) as u64);
+    // ---- oracle: per (case, operation) all processes with the parent's environment agree
     for ((idx, op), d) in &parent {
         let mut distinct: Vec<u64> = vec![*d];
         let mut missing = 0;
-        for r in &results {
+        for r in results.iter().take(nproc) {
             match r.get(&(*idx, op.clone())) { Some(x) => if !distinct.contains(x) { distinct.push(*x); }, None => missing += 1 }
         }
         let pass = distinct.len() == 1 && missing == 0;
         let desc = descs.get(idx).cloned().unwrap_or_default();
         ctx.out.oracle(pass, "fresh-process-repeat", &sig_for(op),
-            &format!("idx={} op={} distinct_outputs={} of {} processes missing={} {}", idx, op, distinct.len(), results.len() + 1, missing, desc));
+            &format!("idx={} op={} distinct_outputs={} of {} processes missing={} {}", idx, op, distinct.len(), nproc.min(results.len()) + 1, missing, desc));
         if !pass { ctx.out.count(&format!("varies:{}", op)); }
+        // ---- and the processes under other clocks / time zones agree on everything that writes no stamp
+        if !(plan.clock_free_case(*idx) && clock_free_op(op)) { continue; }
+        let mut differing: Vec<String> = Vec::new();
+        let mut missing = 0;
+        for (k, r) in results.iter().enumerate().skip(nproc) {
+            match r.get(&(*idx, op.clone())) { Some(x) => if x != d { differing.push(child_env.get(k).cloned().unwrap_or_default()); }, None => missing += 1 }
+        }
+        let pass = differing.is_empty() && missing == 0;
+        ctx.out.oracle(pass, "environment-independence", &format!("c20/{}/depends-on-clock-or-tz", op),
+            &format!("idx={} op={} differs-under=[{}] missing={} {}", idx, op, differing.join("; "), missing, desc));
     }
+    let _ = std::fs::remove_dir_all(&imgdir);
 }
 
 // ------------------------------------------------------------------------------------------------ model tie
